@@ -11,6 +11,14 @@ CLAIMS = {
          "Structural necessary conditions decided exhaustively over all CFG paths: every MakeMove/MakeNullMove/frame push/history push in search, perft and the abort fallback is closed on every path with the matching token; sticky search state is cleared before iterating. A violation implies an input/abort point on which the board is left changed or a later search starts aborted. Legality of the returned move for concrete positions is not decided.",
          "Trusts go/types+go/ssa (x/tools v0.50.0); panicking exits ignored; does not decide behaviour for concrete positions or abort points.",
          "DESIGN.md §3 C06"),
+ "C04": ("effect/ownership sets over SSA (single writer of the three board encodings, immutable Zobrist tables) + def-use slices of the appended hash (no dropped delta, paired toggles, index/bit agreement) + sibling comparison of from-scratch vs incremental hash terms",
+         "Structural necessary conditions decided from the SSA of package board and the whole-program writer sets: only addPiece/removePiece/FEN parser store the three placement encodings and they do so in lock-step; every placement delta, side-to-move flip, castling-right change and en-passant change is mirrored by the matching Zobrist xor with agreeing indices; calculateHash includes exactly the same components under the same conventions. A violation implies a move sequence after which Hash() differs from recomputation or the encodings disagree. Value equality for concrete sequences is not decided.",
+         "Trusts go/ssa; field effects are attributed by declared struct type; xor algebra (order independence) is not mechanised.",
+         "DESIGN.md §3 C04"),
+ "C17": ("transitive effect analysis (reads/writes/globals/nondeterminism) over the VTA call-graph closure of every eval.Eval instance",
+         "The independence sentence of the property is decided completely: the closure of Eval reads only Pieces, Colors, SquaresToPiece, STM, FiftyCnt of the board, stores to no board field, coefficient or package variable, reads only init-time-immutable tables and reaches no nondeterminism source. Colour symmetry is decided only where the two colours are spelled out side by side (sibling mirror rule); symmetry of shared helper code is not decided.",
+         "Trusts go/ssa + VTA (over-approximate dynamic calls); no reflect/unsafe in the closure (checked).",
+         "DESIGN.md §3 C17"),
 }
 
 NOT_YET = "no static rule of DESIGN.md §3 for this property is built in this revision yet; not claimed"
